@@ -14,6 +14,26 @@
 using namespace libphysica;
 using namespace libphysica::natural_units;
 
+// Read access to the private search state of Interpolation (jLast, correlated_calls) without changing the library:
+// access checking is not applied to the arguments of an explicit template instantiation (C++ [temp.spec]/6).
+template <typename Tag, typename Tag::type M>
+struct Rob
+{
+	friend typename Tag::type peek(Tag) { return M; }
+};
+struct JLastTag
+{
+	typedef unsigned int Interpolation::*type;
+	friend type peek(JLastTag);
+};
+struct CorrTag
+{
+	typedef bool Interpolation::*type;
+	friend type peek(CorrTag);
+};
+template struct Rob<JLastTag, &Interpolation::jLast>;
+template struct Rob<CorrTag, &Interpolation::correlated_calls>;
+
 static volatile double sink = 0.0;
 static std::string workfile;   // scratch file name (set in main)
 
@@ -666,6 +686,27 @@ static void handler(vh::Reader& r, vh::Out& o)
 		std::vector<double> l = r.list();
 		double t			  = r.num();
 		sink				  = Locate_Closest_Location(l, t);
+	}
+	else if(op == "locate_trace")
+	{
+		// Locate requests on one object; after each one the index returned and the private search state
+		std::vector<double> xs = r.list();
+		long n				   = r.integer();
+		Interpolation I(xs, ramp(xs.size()));
+		std::vector<long> tr;
+		for(long k = 0; k < n; k++)
+		{
+			double x	   = r.num();
+			unsigned int j = I.Locate(x);
+			tr.push_back((long) j);
+			tr.push_back((long) (I.*peek(JLastTag())));
+			tr.push_back((I.*peek(CorrTag())) ? 1 : 0);
+		}
+		o.w("OK");
+		o.i(n);
+		for(long v : tr)
+			o.i(v);
+		return;
 	}
 	else if(op == "icalls" || op == "icalls_t")
 	{
